@@ -1032,10 +1032,14 @@ func (c *Client) trySwitchingProtocol() error {
 		Profile:  prevProfile,
 	}
 
+	var err error
+
 	// some Hikvision cameras require a describe before a setup
-	_, _, err := c.doDescribe(c.lastDescribeURL)
-	if err != nil {
-		return err
+	if c.lastDescribeURL != nil {
+		_, _, err = c.doDescribe(c.lastDescribeURL)
+		if err != nil {
+			return err
+		}
 	}
 
 	for i, cm := range prevMedias {
@@ -1910,7 +1914,7 @@ func (c *Client) doSetup(
 	case ProtocolUDP, ProtocolUDPMulticast:
 		if thRes.Protocol == headers.TransportProtocolTCP {
 			// switch transport automatically
-			if c.setuppedTransport == nil && c.Protocol == nil {
+			if c.setuppedTransport == nil && c.Protocol == nil && c.state != clientStatePreRecord {
 				c.OnTransportSwitch(liberrors.ErrClientSwitchToTCPDueToServer{})
 
 				c.baseURL = baseURL
@@ -1923,9 +1927,11 @@ func (c *Client) doSetup(
 				}
 
 				// some Hikvision cameras require a describe before a setup
-				_, _, err = c.doDescribe(c.lastDescribeURL)
-				if err != nil {
-					return nil, err
+				if c.lastDescribeURL != nil {
+					_, _, err = c.doDescribe(c.lastDescribeURL)
+					if err != nil {
+						return nil, err
+					}
 				}
 
 				return c.doSetup(baseURL, medi, 0, 0)
